@@ -291,18 +291,43 @@ pub async fn run(args: &Args, rep: &mut Reporter, prop: &'static str) {
             if rng.chance(1, 3) {
                 counts[n - 1] = 0; // one device only syncs (fast-forward)
             }
+            // a burst: two devices make a dozen or more edits each while their clocks stand still
+            // (coarse clock), so the merged patch is long and full of equal timestamps
+            let burst = rng.chance(1, 4);
+            if burst {
+                counts[0] = 14 + rng.below(6) as usize;
+                counts[n - 1] = 14 + rng.below(6) as usize;
+                for d in 0..n {
+                    w.devices[d].step_ns = 0;
+                }
+                rep.count("burst_phases", 1);
+            }
             let allow_folder_ops = rng.chance(1, 2);
             let mut mines: Vec<Vec<(VaultId, SecretId)>> = vec![vec![]; n];
             let mut gones: Vec<BTreeSet<SecretId>> = vec![BTreeSet::new(); n];
             // interleave devices so that logical times interleave too
             let mut order: Vec<usize> = counts.iter().enumerate().flat_map(|(d, c)| std::iter::repeat(d).take(*c)).collect();
             rng.shuffle(&mut order);
+            let burst_folders: Vec<VaultId> = if folders.is_empty() { vec![] } else { vec![folders[rng.usize(folders.len())]] };
+            let burst_pool: Vec<(VaultId, SecretId)> = pool.iter().copied().filter(|(f, _)| burst_folders.contains(f)).collect();
+            let mut burst_k = vec![0i128; n];
+            let burst_base: Vec<i128> = (0..n).map(|d| w.devices[d].now_ns).collect();
             for d in order {
+                if burst {
+                    // pairs of equal timestamps, advancing: t0 t0 t1 t1 ... (a clock with a coarse tick)
+                    w.devices[d].now_ns = burst_base[d] + (burst_k[d] / 2) * MS;
+                    burst_k[d] += 1;
+                }
                 let (mine, gone) = (&mut mines[d], &mut gones[d]);
                 let mut m = std::mem::take(mine);
                 let mut g = std::mem::take(gone);
-                let allow_rewrite = matches!(prop, "C02" | "C20") && rng.chance(1, 2);
-                let r = one_edit(&mut w, d, &mut rng, &folders, &pool, &mut m, &mut g, allow_folder_ops, allow_rewrite).await;
+                let allow_rewrite = !burst && matches!(prop, "C02" | "C20") && rng.chance(1, 2);
+                // a burst stays in one folder, so that ONE log receives a long patch
+                let r = if burst {
+                    one_edit(&mut w, d, &mut rng, &burst_folders, &burst_pool, &mut m, &mut g, false, false).await
+                } else {
+                    one_edit(&mut w, d, &mut rng, &folders, &pool, &mut m, &mut g, allow_folder_ops, allow_rewrite).await
+                };
                 mines[d] = m;
                 gones[d] = g;
                 match r {
@@ -316,6 +341,13 @@ pub async fn run(args: &Args, rep: &mut Reporter, prop: &'static str) {
                         rep.count("edit_errors", 1);
                         log.push(format!("d{d}: edit failed: {e}"));
                     }
+                }
+            }
+            if burst {
+                for d in 0..n {
+                    w.devices[d].step_ns = MS;
+                    // move on, so that later events are later
+                    w.devices[d].now_ns = burst_base[d] + (burst_k[d] / 2 + 2) * MS;
                 }
             }
             let editing_devices = edits.iter().map(|e| e.device).collect::<BTreeSet<_>>().len();
